@@ -383,6 +383,70 @@ func ruleWalBatch(c *Ctx, r *Reporter) {
 			r.OK(name+":record-seq", c.FnPos(fn), "all records of a batch carry one loop-invariant sequence number")
 		}
 
+		// buffer provision: the per-entry size added to the batch total equals the bytes writeRecord puts into the buffer
+		r.Rule("buffer-provision-formula", 2)
+		{
+			var lx0 LinX
+			hdr := c.Const("pkg/wal", "HeaderSize")
+			var payloadLen ssa.Value
+			AllInstrs(a.writeRecord, false, func(_ *ssa.Function, ins ssa.Instruction) {
+				if mk, ok := ins.(*ssa.MakeSlice); ok {
+					if _, isK := mk.Len.(*ssa.Const); !isK {
+						payloadLen = mk.Len
+					}
+				}
+			})
+			// accumulator: loop phi compared with Size()-Buffered()
+			var inc ssa.Value
+			var cmpPos ssa.Instruction
+			AllInstrs(fn, false, func(_ *ssa.Function, ins ssa.Instruction) {
+				bo, ok := ins.(*ssa.BinOp)
+				if !ok || (bo.Op != token.GTR && bo.Op != token.GEQ && bo.Op != token.LSS && bo.Op != token.LEQ) {
+					return
+				}
+				for _, pair := range [][2]ssa.Value{{bo.X, bo.Y}, {bo.Y, bo.X}} {
+					phi, isPhi := pair[0].(*ssa.Phi)
+					if !isPhi || !strings.Contains(operandString(pair[1]), "Buffered") {
+						continue
+					}
+					for i, e := range phi.Edges {
+						if phi.Block().Dominates(phi.Block().Preds[i]) {
+							if add, ok := e.(*ssa.BinOp); ok && add.Op == token.ADD {
+								if add.X == ssa.Value(phi) {
+									inc = add.Y
+								} else if add.Y == ssa.Value(phi) {
+									inc = add.X
+								}
+								cmpPos = ins
+							}
+						}
+					}
+				}
+			})
+			w0 := recs[0]
+			sub0 := map[string]string{}
+			if w0.Common().StaticCallee() == a.writeRecord {
+				for i, p := range a.writeRecord.Params {
+					if i < len(w0.Common().Args) {
+						sub0["param:"+p.Name()] = Path(w0.Common().Args[i])
+					}
+				}
+			}
+			if hdr == nil || payloadLen == nil || inc == nil {
+				r.Undecided(name+":provision", c.FnPos(fn), "cannot find the batch-size accumulator compared with the free buffer space, or writeRecord's payload allocation")
+			} else {
+				hk, _ := constInt(ssa.NewConst(hdr.Val(), hdr.Type()))
+				var want GLin
+				for _, alt := range lx0.Lin(payloadLen).Subst(sub0) {
+					want = append(want, GAlt{Guard: alt.Guard, L: alt.L.add(linConst(hk), 1)})
+				}
+				got := lx0.Lin(inc)
+				r.Check(got.String() == want.String(), name+":provision", c.InsPos(cmpPos),
+					"the batch total grows by HeaderSize + payload size per entry, exactly what writeRecord buffers: "+want.String(),
+					"the size provisioned per entry ("+got.String()+") differs from what writeRecord writes into the buffer ("+want.String()+"): the buffer can spill to the file in the middle of a batch, and a crash there leaves a strict subset of the transaction in the log")
+			}
+		}
+
 		// validate-before-first-write
 		r.Rule("validate-before-first-write", 2)
 		// the rejection conditions of the callee (writeRecord) that do not depend on I/O: `lin > K` → failing exit before any write
